@@ -26,7 +26,7 @@ from vlib import pcp
 from vlib.common import HARNESS, REPO
 from vlib.pcp import Ent, OLD, hx
 from vlib.seqrun import run_batch
-from checks.c12 import SAN_FLAGS, read_const, probe_variant, variant_text
+from checks.c12 import SAN_FLAGS, read_const, probe_variant, variant_text, probe_cnt
 from checks.c12 import model_line as c12_model_line
 
 LEVEL = "proof"
@@ -1453,7 +1453,8 @@ def run(ctx):
     distinct = set()
     if ok:
         blk = int(subprocess.run([exe, "--blksize", ctx.scratch], stdout=subprocess.PIPE).stdout.decode().strip() or 0)
-        cnt = ((blk + pcp.BUFSIZ - 1) // pcp.BUFSIZ) * pcp.BUFSIZ or pcp.BUFSIZ
+        cnt = probe_cnt(ctx, exe, ((blk + pcp.BUFSIZ - 1) // pcp.BUFSIZ) * pcp.BUFSIZ or pcp.BUFSIZ)
+        dist["bp_cnt"] = cnt
         var = probe_variant(ctx, exe)
         var.update(probe_sender(ctx, exe))
         dist["receiver_variant"] = variant_text(var)
